@@ -12,6 +12,7 @@ NAMED = {
     "float32": ("f", 4), "float64": ("f", 8), "complex64": ("c", 8), "complex128": ("c", 16),
     "single": ("f", 4), "double": ("f", 8), "csingle": ("c", 8), "cdouble": ("c", 16), "intc": ("i", 4),
 }
+PY_TYPES = {"complex": "complex128", "float": "float64", "int": "int64", "bool": "bool"}  # what NumPy makes of the Python types
 _CODE = re.compile(r"^([<>=|]?)([biufcmMUSV])(\d+)$")
 
 
@@ -38,6 +39,10 @@ def parse_expr(e):
         return parse_str(s)
     if isinstance(e, ast.Attribute) and norm(e.value) in ("np", "numpy") and e.attr in NAMED:
         return parse_str(e.attr)
+    if isinstance(e, ast.Name) and e.id in PY_TYPES:
+        d = parse_str(PY_TYPES[e.id])
+        d["text"] = f"{e.id} (= {PY_TYPES[e.id]})"
+        return d
     if isinstance(e, ast.List):
         fields = []
         off = 0
